@@ -442,6 +442,12 @@ class Codec(object):
                 ct = self.s.complex(runtime_q)
             else:
                 ct = self.s.complex(decl)
+                if ALWAYS_TYPE[0] and declared_q is not None:
+                    # (legal and redundant: the element names its own declared type)
+                    try:
+                        e.set(q(XSI, 'type'), '%s:%s' % (self._prefix(e, runtime_q[0]), runtime_q[1]))
+                    except SchemaError:
+                        pass
             ps, ats = self.s.all_particles(ct)
             fields = dict(self.b.flat_fields(v.cls))
             used = set()
@@ -615,6 +621,7 @@ class Codec(object):
 
 # ------------------------------------------------------------------ messages
 
+ALWAYS_TYPE = [False]     # True: every complex element spells xsi:type, also when it is its declared type
 PREFIX_SCHEME = ['plain']     # 'plain' | 'adversarial' (set by the checks that vary it)
 
 
